@@ -46,7 +46,7 @@ def csvTime (cell : List Char) : Option Int :=
   some (decNat (pre ++ padded))
 
 def appendCell (d : List (String × List String)) (k : String) (v : String) : Option (List (String × List String)) :=
-  if assocHas d k then some (d.map (fun p => if p.1 == k then (p.1, p.2 ++ [v]) else p)) else Option.none
+  if assocHas d k then some (d.map (fun p => (p.1, if p.1 == k then p.2 ++ [v] else p.2))) else Option.none
 
 /-- one data row: `for x in range(len(row)): if x != time_idx: data[header[x]].append(row[x])` -/
 def csvRowGo (header : List String) (timeIdx : Nat) : Nat → List String → List (String × List String) →
